@@ -803,7 +803,31 @@ func (g *gen) behC19() M {
 		}
 	}
 	if g.chance(0.6) {
-		steps = append(steps, send(M{"t": "X"}))
+		if g.chance(0.4) {
+			// Terminate and what follows it reach the server in one segment: nothing after it is served
+			x := send(M{"t": "X"})
+			x["glue"] = true
+			steps = append(steps, x)
+			n := 1 + g.rng.Intn(3)
+			for i := 0; i < n; i++ {
+				var m M
+				switch g.rng.Intn(3) {
+				case 0:
+					m = M{"t": "X"}
+				case 1:
+					m = M{"t": "Q", "q": g.trivialQ()}
+				default:
+					m = M{"t": "S"}
+				}
+				st := send(m)
+				if i < n-1 {
+					st["glue"] = true
+				}
+				steps = append(steps, st)
+			}
+		} else {
+			steps = append(steps, send(M{"t": "X"}))
+		}
 	}
 	return M{"cfg": cfg, "steps": steps}
 }
